@@ -146,6 +146,7 @@ type Runtime struct {
 	out      Outcome
 	finOnce  bool
 	finisher *Thread
+	oracle   bool
 
 	// Budget is the preemption bound of this execution; options whose cost
 	// exceeds what is left of it are not offered.
@@ -173,8 +174,24 @@ func Now() time.Time {
 	return time.Now()
 }
 
-// Active reports whether an execution is in progress.
-func Active() bool { return R != nil && !R.aborting }
+// Active reports whether an execution is in progress (and the caller is code
+// under test, not an oracle callback).
+func Active() bool { return R != nil && !R.aborting && !R.oracle }
+
+// Oracle runs f with every shim passive (locks and channel operations are
+// no-ops that never block or schedule), so that an oracle can read the state
+// of the code under test through its ordinary accessors at a decision point.
+func Oracle(f func()) {
+	r := R
+	if r == nil {
+		f()
+		return
+	}
+	old := r.oracle
+	r.oracle = true
+	defer func() { r.oracle = old }()
+	f()
+}
 
 // Effect marks a visible state change (bumps the global epoch that idle
 // pollers are parked on).
@@ -334,7 +351,7 @@ func shortFile(f string) string {
 // Point is a scheduling point of the current thread: it continues when it is
 // chosen and cond (nil = always) holds.
 func Point(k Kind, label string, cond func() bool, free bool) {
-	if r := R; r != nil && !r.aborting {
+	if r := R; r != nil && !r.aborting && !r.oracle {
 		r.point(k, label, cond, free)
 	}
 }
@@ -664,7 +681,7 @@ func (r *Runtime) ThreadStates() string {
 // until some thread makes a visible change.
 func Sleep(d time.Duration) {
 	r := R
-	if r == nil || r.aborting {
+	if r == nil || r.aborting || r.oracle {
 		if r == nil {
 			time.Sleep(d)
 		}
